@@ -1287,6 +1287,55 @@ func failedSendWithReceive(id string, manual bool) runner.Result {
 	return res
 }
 
+// emitsBeforeReturn: the packets of a call are on the wire when the call returns (automatic flushing),
+// whatever the stream's MaximumBufferSize (which only says which marshal buffers are kept) and however
+// the message sizes sit around it; the writer's own buffer is larger than any of the messages, so
+// nothing reaches the wire unless the stream flushes.
+func emitsBeforeReturn(id string, maxbuf int, sizes []int) runner.Result {
+	var sink lockedBuffer
+	wr := drpcwire.NewWriter(&sink, 1<<16)
+	st := drpcstream.NewWithOptions(context.Background(), streamID, wr, drpcstream.Options{MaximumBufferSize: maxbuf})
+	where := fmt.Sprintf("[stream MaximumBufferSize=%d, writer buffer 64 KiB, sends of %v bytes]", maxbuf, sizes)
+	var fails []string
+	count := func() (msgs int, bad string) {
+		sink.mu.Lock()
+		b := append([]byte(nil), sink.b.Bytes()...)
+		sink.mu.Unlock()
+		for len(b) > 0 {
+			rem, fr, ok, err := drpcwire.ParseFrame(b)
+			if err != nil || !ok {
+				return msgs, fmt.Sprintf("the wire ends inside a frame (%d bytes left over, err=%v)", len(b), err)
+			}
+			if fr.Kind == drpcwire.KindMessage && fr.Done {
+				msgs++
+			}
+			b = rem
+		}
+		return msgs, ""
+	}
+	for i, sz := range sizes {
+		d := make([]byte, sz)
+		for j := range d {
+			d[j] = byte(i + 1)
+		}
+		if err := st.MsgSend(&d, payload.Enc{}); err != nil {
+			fails = append(fails, fmt.Sprintf("%s: send #%d failed on an open stream: %v", where, i+1, err))
+			break
+		}
+		if n, bad := count(); bad != "" || n != i+1 {
+			fails = append(fails, fmt.Sprintf("%s: send #%d (%d bytes) returned nil and %d complete message packets are on the wire, want %d %s", where, i+1, sz, n, i+1, bad))
+			break
+		}
+	}
+	st.Cancel(errCancel)
+	if len(fails) > 0 {
+		return runner.Violation(id, "state-machine:send-returned-before-its-packet-was-emitted", strings.Join(fails, "\n"))
+	}
+	res := runner.Hold(id, where, true)
+	res.Events = int64(len(sizes))
+	return res
+}
+
 // lockedBuffer is a bytes.Buffer safe for one writer and a reader of Len.
 type lockedBuffer struct {
 	mu sync.Mutex
@@ -1482,6 +1531,13 @@ func gen(tier string, seed uint64) []runner.Scenario {
 			how, end := how, end
 			id := fmt.Sprintf("shared-writer/%s/%s", how, end)
 			out = append(out, runner.Scenario{ID: id, Run: func() runner.Result { return sharedWriter(id, how, end) }})
+		}
+	}
+	for _, maxbuf := range []int{0, 1, 16, 64, 1024, 1 << 20} {
+		for k, sizes := range [][]int{{0, 1}, {15, 16, 17}, {63, 64, 65}, {5, 200, 5}, {1023, 1024, 1025, 3}, {2000, 0, 2000}} {
+			maxbuf, sizes := maxbuf, sizes
+			id := fmt.Sprintf("emits-before-return/maxbuf=%d/%d", maxbuf, k)
+			out = append(out, runner.Scenario{ID: id, Run: func() runner.Result { return emitsBeforeReturn(id, maxbuf, sizes) }})
 		}
 	}
 	for _, deadline := range []bool{false, true} {
